@@ -20,6 +20,7 @@ import (
 	"strconv"
 	"testing"
 
+	"github.com/consensys/gnark-crypto/utils/cpu"
 	"pgregory.net/rapid"
 
 	"verif/harness/internal/gen"
@@ -39,7 +40,40 @@ func selected(name string) bool {
 	return ok
 }
 
+// variant names the CPU-path configuration this process was started in by the job table (conf/c10.py):
+// "default", "noavx512" (GODEBUG=cpu.avx512=off), "noadx" (GODEBUG=cpu.adx=off), "purego" (-tags purego).
+func variant() string {
+	if v := os.Getenv("VERIF_C10_VARIANT"); v != "" {
+		return v
+	}
+	return "default"
+}
+
+// tname builds the evidence test label; non-default configurations are kept apart.
+func tname(base string, x inst.FFT) string {
+	if v := variant(); v != "default" {
+		return base + "[" + v + "]/" + x.Name()
+	}
+	return base + "/" + x.Name()
+}
+
+// checkVariant makes a variant run non-vacuous: the library's feature switches must be in the announced state.
+func checkVariant(t *testing.T) {
+	adx, avx := cpu.SupportADX, cpu.SupportAVX512
+	switch variant() {
+	case "noavx512":
+		if !adx || avx {
+			t.Fatalf("variant noavx512 announced but utils/cpu reports ADX=%v AVX512=%v", adx, avx)
+		}
+	case "noadx", "purego":
+		if adx || avx {
+			t.Fatalf("variant %s announced but utils/cpu reports ADX=%v AVX512=%v", variant(), adx, avx)
+		}
+	}
+}
+
 func forFFTs(t *testing.T, body func(t *testing.T, x inst.FFT)) {
+	checkVariant(t)
 	for _, x := range inst.FFTs() {
 		if !selected(x.Name()) {
 			continue
@@ -155,7 +189,7 @@ func (c cfg) classes(x inst.FFT) []string {
 		}
 	}
 	return []string{fmt.Sprintf("n=2^%d", c.logn), "dec=" + c.dec.String(), "coset=" + onoff(c.coset),
-		"precompute=" + onoff(c.pre), tk, sh, dir, c.kernel(x)}
+		"precompute=" + onoff(c.pre), tk, sh, dir, c.kernel(x), "variant=" + variant()}
 }
 
 // matrixShift is the fixed custom shift of the deterministic option matrix: an arbitrary element that is
